@@ -49,7 +49,7 @@ func (funnelRunner) Step(t []string) string {
 	for i := 0; i < n; i++ {
 		portals[i] = [2]geometry.Vector2{pt(v[4*i], v[4*i+1]), pt(v[4*i+2], v[4*i+3])}
 	}
-	return fmtPtsG(navmesh.VerifStringPull(portals))
+	return guardedSmall(func() string { return fmtPtsG(navmesh.VerifStringPull(portals)) })
 }
 
 type navRunner struct {
@@ -78,18 +78,19 @@ func (r *navRunner) Step(t []string) string {
 		if len(t) != 1 || r.nm != nil || len(r.polys) == 0 {
 			return "bad-op"
 		}
-		r.nm = navmesh.NewNavMesh(r.polys, 0)
-		return "ok"
+		return guarded(func() string { r.nm = navmesh.NewNavMesh(r.polys, 0); return "ok" })
 	case "path":
 		v, ok := decToks(t[1:])
 		if !ok || len(v) != 4 || r.nm == nil {
 			return "bad-op"
 		}
-		p := r.nm.FindPath(pt(v[0], v[1]), pt(v[2], v[3]))
-		if len(p) == 0 {
-			return "none"
-		}
-		return fmtPtsG(p)
+		return guarded(func() string {
+			p := r.nm.FindPath(pt(v[0], v[1]), pt(v[2], v[3]))
+			if len(p) == 0 {
+				return "none"
+			}
+			return fmtPtsG(p)
+		})
 	}
 	return "bad-op"
 }
@@ -141,9 +142,9 @@ func funnelGen(rng *proto.RNG, tier string, shard, nshards int, w *bufio.Writer)
 	}
 	chunkEmit(e, lines, 400)
 	// (iii) random corridors
-	nRand := 300
+	nRand := 600
 	if thorough {
-		nRand = 4000
+		nRand = 6000
 	}
 	for i := 0; i < nRand; i++ {
 		var ls []string
@@ -273,9 +274,9 @@ func navGen(rng *proto.RNG, tier string, shard, nshards int, w *bufio.Writer) {
 		}
 	}
 	// (iii) random meshes
-	nRand := 150
+	nRand := 400
 	if thorough {
-		nRand = 2000
+		nRand = 4000
 	}
 	for i := 0; i < nRand; i++ {
 		var polys [][]ipt
